@@ -155,5 +155,8 @@ pub fn run(ctx: &Ctx) {
         ctx.require_class(&format!("l0/{}/{}", if f.w == 8 { "byte-exhaustive" } else { "word-lattice" }, f.name), 1000);
     }
     crate::l1::run_forms(ctx, crate::l1::FormSet::MulDiv);
+    if ctx.tier == Tier::Thorough {
+        crate::fuzzrun::exec_campaign(ctx, &["mul", "imul", "div", "idiv", "aaa", "aas", "daa", "das", "aam", "aad", "cbw", "cwd"], &[]);
+    }
     crate::c03cli::run(ctx);
 }
